@@ -340,6 +340,13 @@ Proof. split; reflexivity. Qed.
 Lemma report_dropped_read_tv r m : tv_eq r (report_dropped_read r m).
 Proof. split; reflexivity. Qed.
 #[export] Hint Resolve report_dropped_proposal_tv report_dropped_read_tv : tv.
+Lemma handle_log_query_tv r m : tv_eq r (handle_log_query r m).
+Proof.
+  unfold handle_log_query. destruct (r_log_query r); [apply panic_tv|]. cbv zeta.
+  repeat match goal with |- context [if ?c then _ else _] => destruct c end;
+    try apply panic_tv; split; reflexivity.
+Qed.
+#[export] Hint Resolve handle_log_query_tv : tv.
 
 Lemma handle_heartbeat_message_tv r m : tv_eq r (handle_heartbeat_message r m).
 Proof.
@@ -549,7 +556,7 @@ Proof.
     | apply handle_leader_propose_tv | apply handle_leader_read_index_tv | apply handle_leader_replicate_resp_tv
     | apply handle_leader_heartbeat_resp_tv | apply handle_leader_snapshot_status_tv | apply handle_leader_unreachable_tv
     | apply handle_leader_transfer_tv | apply handle_node_request_prevote_tv | apply handle_node_config_change_tv
-    | apply restore_remotes_tv | apply tv_eq_refl ] ].
+    | apply restore_remotes_tv | apply handle_log_query_tv | apply tv_eq_refl ] ].
   - apply handle_node_election_tv.
   - apply handle_node_request_vote_tv. apply Hrv. reflexivity.
   - apply handle_prevote_candidate_resp_tv.
